@@ -1,5 +1,7 @@
 (* C11 — optimal trials are exactly the non-dominated completed trials. Statements only. *)
 From VZ Require Import Base.Prelude Base.XFloat Model.Pareto Proofs.ParetoP.
+From VZ Require Model.DominanceIR Gen.Dominance Proofs.DominanceP.
+From VZ Require Model.Service Model.HandlerIR Model.OptimalIR Gen.OptimalSrc Proofs.OptimalIRP.
 
 (* spec_optimal ps : for each point, "no point of ps dominates it" (all >=, some >), IEEE comparisons *)
 
@@ -73,3 +75,31 @@ Print Assumptions C11_nan_never_reported_refuted.
 Example C11_nonvacuous : Forall (good 2) [[Fin 1; Fin 5]; [PInf; NInf]; [Fin 1; Fin 5]; [Fin 0; Fin 0]] /\
   spec_optimal [[Fin 1; Fin 5]; [PInf; NInf]; [Fin 1; Fin 5]; [Fin 0; Fin 0]] = [true; true; true; false].
 Proof. split; [repeat constructor|reflexivity]. Qed.
+
+(* THE DOMINANCE TESTS ARE THE SOURCE.  Gen/Dominance.v is regenerated at every run: the entry of the dominance matrix of
+   ListOptimalTrials with its reduction (which index is judged follows from the axis of np.any) and negation; the row test,
+   stacking and sum of nsga2._pareto_rank; xla_pareto._is_dominated in both strictness modes with the two vmaps and the
+   reductions of _is_pareto_optimal_against and pareto_rank.  Their meaning is the model functions the theorems above are about. *)
+Theorem C11_source_service_matrix_is_the_model : forall ys,
+  DominanceIR.optimal_of Dominance.svc_entry ys ys = svc_optimal ys.
+Proof. exact DominanceP.src_svc_optimal. Qed.
+Theorem C11_source_ranks_are_the_model : forall ys,
+  DominanceIR.rank_of Dominance.nsga_entry ys = pareto_rank ys /\ DominanceIR.rank_of Dominance.jax_strict ys = pareto_rank ys.
+Proof. intros ys. split; [exact (DominanceP.src_nsga_rank ys) | exact (DominanceP.src_jax_rank ys)]. Qed.
+Theorem C11_source_jax_against_is_the_model : forall (strict : bool) yy baseline,
+  DominanceIR.optimal_of (if strict then Dominance.jax_strict else Dominance.jax_nonstrict) yy baseline = jax_against strict yy baseline.
+Proof. exact DominanceP.src_jax_against. Qed.
+Print Assumptions C11_source_service_matrix_is_the_model.
+Print Assumptions C11_source_ranks_are_the_model.
+Print Assumptions C11_source_jax_against_is_the_model.
+(* hence, with C11_service_matrix_correct: what the source of ListOptimalTrials computes on the considered vectors is the definition *)
+Theorem C11_source_service_matrix_correct : forall ys, DominanceIR.optimal_of Dominance.svc_entry ys ys = spec_optimal ys.
+Proof. intros ys. rewrite DominanceP.src_svc_optimal. apply C11_service_matrix_correct. Qed.
+Print Assumptions C11_source_service_matrix_correct.
+
+(* LISTOPTIMALTRIALS IS THE SOURCE: Gen/OptimalSrc.v is regenerated at every run from the method (block by block, see
+   Model/OptimalIR.v); the program it denotes is the model's handler program. *)
+Theorem C11_source_list_optimal_is_the_model : forall k,
+  HandlerIR.peq (OptimalIR.list_optimal_of OptimalSrc.src_ListOptimalTrials k) (Service.handler (Service.ListOptimalTrials k)).
+Proof. exact OptimalIRP.src_list_optimal_is_h_list_optimal. Qed.
+Print Assumptions C11_source_list_optimal_is_the_model.
